@@ -2129,12 +2129,22 @@ CJSON_PUBLIC(cJSON_bool) cJSON_AddItemReferenceToArray(cJSON *array, cJSON *item
 
 CJSON_PUBLIC(cJSON_bool) cJSON_AddItemReferenceToObject(cJSON *object, const char *string, cJSON *item)
 {
+    cJSON *reference = NULL;
+
     if ((object == NULL) || (string == NULL))
     {
         return false;
     }
 
-    return add_item_to_object(object, string, create_reference(item, &global_hooks), &global_hooks, false);
+    reference = create_reference(item, &global_hooks);
+    if (add_item_to_object(object, string, reference, &global_hooks, false))
+    {
+        return true;
+    }
+
+    /* the reference was not added (the key could not be copied): release it, it owns nothing */
+    cJSON_Delete(reference);
+    return false;
 }
 
 CJSON_PUBLIC(cJSON*) cJSON_AddNullToObject(cJSON * const object, const char * const name)
